@@ -141,7 +141,8 @@ export function genRT(rng, d, names) {
       break;
     }
     case 8: r = genDisc(rng, d - 1, names); break;
-    case 9: r = [A("map"), genRT(rng, 0, names), genRT(rng, d - 1, names)]; break;
+    // (a Map keyed by an object type now and then: the parsed Map has parsed keys — declared parts only — as well as parsed values)
+    case 9: r = [A("map"), rng.chance(1, 4) ? genObject(rng, 1, names) : genRT(rng, 0, names), genRT(rng, d - 1, names)]; break;
     case 10: r = [A("set"), genRT(rng, d - 1, names)]; break;
     case 11: r = names.length ? [A("ref"), rng.pick(names)] : genLeaf(rng); break;
     case 12: { // a union below the root whose deepest-failing branch fails inside a further union
@@ -341,6 +342,21 @@ function sortKeysDeep(v) {
 const same = (a, b) => show(encVal(a)) === show(encVal(b));
 
 // data ⊑ input: only declared parts of the input, leaves preserved in kind and content
+// no union, intersection or discriminated union anywhere in the type (through references)
+function structuralOnly(rt, env, depth) {
+  if (depth > 30) return true;
+  if (rt instanceof Atom || typeof rt === "string") return true;
+  switch (head(rt)) {
+    case "anyof": case "allof": case "disc": return false;
+    case "ref": { const t = lookupEnv(env, rt[1]); return t ? structuralOnly(t, env, depth + 1) : false; }
+    case "desc": return structuralOnly(rt[2], env, depth);
+    case "opt": case "array": case "set": return structuralOnly(rt[1], env, depth + 1);
+    case "map": return structuralOnly(rt[1], env, depth + 1) && structuralOnly(rt[2], env, depth + 1);
+    case "tuple": return rt[1].every((t) => structuralOnly(t, env, depth + 1)) && (isAtom(rt[2], "none") || structuralOnly(rt[2], env, depth + 1));
+    case "object": return rt[1].every((p) => structuralOnly(p[1], env, depth + 1)) && rt[2].every(([k, v]) => structuralOnly(k, env, depth + 1) && structuralOnly(v, env, depth + 1));
+  }
+  return true;
+}
 function projection(d, x) {
   if (d === null || d === undefined) return x === null || x === undefined;
   if (typeof d !== "object") return Object.is(d, x) || (typeof d === "number" && d === x);
@@ -453,6 +469,7 @@ export function makeRunner(rt_, mode) {
   const buildEnv = makeBuilder(cg);
   return function run(req) {
     const [, envSx, rtSx, valSx, strictA] = req;
+    const rt0 = rtSx;
     const strict = strictA.s === "true";
     const { table, rt } = buildEnv(envSx, rtSx);
     const parser = cg.buildParserFromRuntype(rt, "T", false);
@@ -487,6 +504,10 @@ export function makeRunner(rt_, mode) {
         try {
           if (parseReturned && !same(parsed, data)) bad.add("c03.agree");
           if (!parser.validate(data, opt("input"))) bad.add("c03.reval");
+          // "consists only of declared parts of the input": on the structural fragment (no union / intersection, where several
+          // members contribute keys) the parsed value has no undeclared key at any depth — Map keys included — i.e. the same
+          // validator accepts it in strict mode
+          if (structuralOnly(rt0, envSx, 0) && !parser.validate(data, { disallowExtraProperties: true })) bad.add("c03.undeclared");
           if (!projection(data, x)) bad.add("c03.proj");
           const again = parser.safeParse(data, opt("input"));
           if (!again.success || !same(again.data, data)) bad.add("c03.idem");
